@@ -57,7 +57,7 @@ GATES = {3: 'types', 5: 'called_from_internal', 6: 'intf_block', 7: 'multi_unit_
          13: 'full_features', 15: 'kernel_module_globals', 17: 'sibling_caller', 19: 'function_in_subgraph',
          21: 'module_level_import', 23: 'mixed_role_module', 25: 'internal_in_subgraph', 27: 'internal_calls',
          29: 'bare_external_wrap', 30: 'rem_then_rename', 28: 'dup_free_then_wrap', 26: 'dup_intf_then_rename',
-         24: 'dup_after_rename', 22: 'replicate'}
+         24: 'dup_after_rename', 22: 'replicate', 20: 'dep_twice', 18: 'wrap_without_dep'}
 INTRINSICS = {'mod', 'int', 'real', 'max', 'min', 'abs'}
 
 
@@ -341,7 +341,13 @@ def run_sequence(case, k, rng, base, res, bump, tier):
     if P.compilable and not meta['lists'] and (not renamed or set(meta['seeds']) == drivers):
         drv = P.driver_source(seeds=drivers)
         processed = {n for n, kd in exp.nodes.items() if kd == 'ProcedureItem'}
-        ref = PL.build_and_run(base / f's{k}' / 'ref', PL.project_texts(PL.behaviour_edit(P, processed, spec)), drv)
+        rtexts = PL.project_texts(PL.behaviour_edit(P, processed, spec))
+        rkey = sighash(rtexts)
+        ref = case.setdefault('refs', {}).get(rkey) or PL.build_and_run(base / f's{k}' / 'ref', rtexts, drv)
+        case['refs'][rkey] = ref
+        if ref['status'] == 'timeout':
+            res['inconclusive'] = 'timeout: ' + ref['detail']
+            return False, spec
         if ref['status'] != 'ok':
             res['inconclusive'] = 'generator defect: reference project does not build/run: ' + ref['detail'][:300]
             return False, spec
@@ -349,6 +355,9 @@ def run_sequence(case, k, rng, base, res, bump, tier):
         optional = {o: Path(o).read_text() for o in untouched}
         run = PL.build_and_run(base / f's{k}' / 'new', required, drv, optional)
         bump('programs_run')
+        if run['status'] == 'timeout':
+            res['inconclusive'] = 'timeout: ' + run['detail']
+            return False, spec
         if run['status'] == 'build_fail':
             bad('outputs-do-not-build', run['detail'], stage=f'{build_detail(run["detail"])}:{seqkey}')
         elif run['status'] == 'run_fail':
